@@ -342,7 +342,9 @@ def random_case(rng, flags, maxlen=12):
         for _try in range(20):
             wild = rng.random() < 0.1
             op = rand_op(rng, st, wild)
-            if op["op"] in ("to_rna", "to_dna", "rc") and mt in ("protein", "text") and rng.random() < 0.8:
+            if op["op"] in ("to_rna", "to_dna") and mt in ("protein", "text"):
+                continue   # DNA/RNA conversion of a non-nucleic alignment is outside the property
+            if op["op"] == "rc" and mt in ("protein", "text") and rng.random() < 0.8:
                 continue
             if mt == "text" and op["op"] in ("no_degen", "omit_gap", "to_type"):
                 continue
@@ -471,6 +473,47 @@ def new_collection_cases(rng, n):
                 ops.append(dict(op=k))
         out.append(dict(moltype=mt, rows=rows, ops=ops, new_collection=True, block="new-collection"))
     return out
+
+
+def sub_alignment_cases(rng, n):
+    out = []
+    for _ in range(n):
+        mt = rng.choice(["dna", "rna", "protein"])
+        nrows = rng.randint(1, 4)
+        L = rng.randint(1, 8)
+        rows = [(i, rand_string(rng, ALPHA[mt], L)) for i in range(nrows)]
+        seqs = None if rng.random() < 0.3 else sorted(rng.sample(range(nrows), rng.randint(1, nrows)))
+        pos = None if rng.random() < 0.3 else [rng.randrange(L) for _ in range(rng.randint(1, 5))]
+        ns, np_ = rng.random() < 0.3, rng.random() < 0.3
+        if np_ and pos is not None:
+            pos = sorted(set(pos))
+        out.append(dict(moltype=mt, arr=True, rows=rows, ops=[], sub_alignment=True, seqs=seqs, pos=pos, negate_seqs=ns,
+                        negate_pos=np_, block="array-sub-alignment"))
+    return out
+
+
+def check_sub_alignment(rep, c, ir, stats):
+    stats["evals"] += 1
+    rows = list(c["rows"])
+    L = len(rows[0][1])
+    if c["pos"] is not None:
+        keep = [i for i in range(L) if i not in c["pos"]] if c["negate_pos"] else c["pos"]
+        rows = [(i, "".join(s[j] for j in keep)) for i, s in rows]
+    if c["seqs"] is not None:
+        idx = [i for i in range(len(rows)) if i not in c["seqs"]] if c["negate_seqs"] else c["seqs"]
+        rows = [rows[i] for i in idx]
+    s = ir["steps"][0]
+    exp = [[i, r] for i, r in rows]
+    if not exp:
+        ok = s.get("exc") == 0
+    else:
+        ok = "obs" in s and [r[:2] for r in s["obs"][2]] == exp and not s.get("ro")
+    stats["ops"]["arr:get_sub_alignment"] = stats["ops"].get("arr:get_sub_alignment", 0) + 1
+    if not ok:
+        stats["violations"] += 1
+        rep.violation("arr:get_sub_alignment" + (":negate_pos" if c["negate_pos"] else "") + (":negate_seqs" if c["negate_seqs"] else ""),
+                      dict(case=c, expected_by_spec=exp or NONE, observed_impl=s,
+                           broken="get_sub_alignment differs from selecting the rows / columns of the strings"))
 
 
 # ------------------------------------------------------------------ comparison
@@ -661,9 +704,10 @@ def run(tier: str, seed: int) -> int:
     nrand = (500 if tier == "quick" else 12000) * (3 if proof_broken else 1)
     cases = corpus(flags) + exhaustive_block(tier, flags) + [random_case(rng, flags) for _ in range(nrand)]
     newc = new_collection_cases(rng, 60 if tier == "quick" else 1500)
+    subc = sub_alignment_cases(rng, 60 if tier == "quick" else 1500)
     import time
     t0 = time.time()
-    impl = core.run_impl_sharded("c03_impl.py", cases + newc, nshards=core.NPROC)
+    impl = core.run_impl_sharded("c03_impl.py", cases + newc + subc, nshards=core.NPROC)
     t1 = time.time()
     model = None
     try:
@@ -679,8 +723,10 @@ def run(tier: str, seed: int) -> int:
         check_case(rep, c, impl[k], model[k] if model is not None else None, stats, disagreements)
     for c, ir in zip(newc, impl[len(cases):]):
         check_new_collection(rep, c, ir, stats)
+    for c, ir in zip(subc, impl[len(cases) + len(newc):]):
+        check_sub_alignment(rep, c, ir, stats)
     blocks = {}
-    for c in cases + newc:
+    for c in cases + newc + subc:
         blocks[c["block"]] = blocks.get(c["block"], 0) + 1
     sample_case = next(c for c in cases if c["block"] == "random")
     rep.coverage.update(
@@ -689,7 +735,7 @@ def run(tier: str, seed: int) -> int:
              "and sequence, read-only methods against a rebuilt object); non-trivial = the alignment has a row with both a gap and "
              "a residue and the operation yields a non-empty alignment that differs from it",
         samples=[dict(case=sample_case)],
-        input_distribution=dict(cases=len(cases) + len(newc), blocks=blocks, ops=stats["ops"], oracle_silent_steps=stats["silent"]),
+        input_distribution=dict(cases=len(cases) + len(newc) + len(subc), blocks=blocks, ops=stats["ops"], oracle_silent_steps=stats["silent"]),
         model_impl_disagreements=stats["disagree"], spec_violations=stats["violations"],
         variant={n: ("repaired" if f else "pinned") for n, f in zip(FLAG_NAMES, flags)},
         partial=PARTIAL, exhaustive=False,
@@ -718,7 +764,16 @@ def replay(path: str) -> int:
         return 1
     c = d["case"]
     ir = core.run_impl_lines("c03_impl.py", [c])[0]
-    if c.get("new_collection"):
+    if c.get("sub_alignment"):
+        print("impl  :", ir)
+        rep = core.Report(PROP, "replay", 0)
+        rep.findings = []
+        stats = dict(evals=0, violations=0, ops={})
+        import io, contextlib
+        with contextlib.redirect_stdout(io.StringIO()):
+            check_sub_alignment(rep, c, ir, stats)
+        bad = bool(stats["violations"])
+    elif c.get("new_collection"):
         print("impl  :", ir)
         rep = core.Report(PROP, "replay", 0)
         rep.findings = []
